@@ -650,6 +650,88 @@ def replay_repeated(first, second):
         shutil.rmtree(root, ignore_errors=True)
 
 
+def ob_load_reaches_all_tensors(env):
+    """load() must hand the model's directory to EVERY external tensor: initializers of the main graph and of bodies at
+    any depth, tensors held in node attributes (TENSOR / TENSORS) in the main graph, in bodies and in model-local functions.
+    Structural complement of load_base_dir (concrete: the places are enumerated, the real ir.load runs on a real file)."""
+    import onnx
+    from onnx import TensorProto as TP
+    from onnx import helper as H
+
+    import onnx_ir as ir
+
+    chk = env.chk
+
+    def ext(name):
+        t = TP(name=name, data_type=TP.UINT8, dims=[4], data_location=TP.EXTERNAL)
+        for k, v in (("location", "w.bin"), ("offset", "0"), ("length", "4")):
+            e = t.external_data.add()
+            e.key, e.value = k, v
+        return t
+
+    deep = H.make_graph([H.make_node("Constant", [], ["dk"], name="deep_const", value=ext("t_deep_attr"))], "deep", [], [H.make_tensor_value_info("dk", TP.UINT8, [4])],
+                        initializer=[ext("t_deep_init")])
+    mid = H.make_graph([H.make_node("If", ["c"], ["mo"], name="mid_if", then_branch=deep, else_branch=deep)], "mid", [], [H.make_tensor_value_info("mo", TP.UINT8, [4])],
+                       initializer=[ext("t_mid_init")])
+    fnode = H.make_node("Constant", [], ["fk"], name="f_const", value=ext("t_fn_attr"))
+    fn = H.make_function("local", "f", [], ["fk"], [fnode], [H.make_opsetid("", 18)])
+    multi = H.make_node("Zoo", [], ["z"], name="zoo", domain="custom")
+    multi.attribute.append(H.make_attribute("ts", [ext("t_list_attr0"), ext("t_list_attr1")]))
+    g = H.make_graph([H.make_node("If", ["c"], ["o"], name="top_if", then_branch=mid, else_branch=mid), H.make_node("Constant", [], ["k"], name="top_const", value=ext("t_top_attr")),
+                      H.make_node("f", [], ["fo"], name="call", domain="local"), multi],
+                     "g", [H.make_tensor_value_info("c", TP.BOOL, [])], [H.make_tensor_value_info("o", TP.UINT8, [4])], initializer=[ext("t_top_init")])
+    m = H.make_model(g, opset_imports=[H.make_opsetid("", 18), H.make_opsetid("local", 1), H.make_opsetid("custom", 1)], functions=[fn], ir_version=10)
+    root = tempfile.mkdtemp(prefix="c10a_")
+    cwd = os.getcwd()
+    name = "load_reaches_all_tensors"
+    chk.case(name)
+    chk.obligations += 1
+    try:
+        os.makedirs(os.path.join(root, "work", "models"))
+        os.chdir(os.path.join(root, "work"))
+        onnx.save(m, "models/m.onnx")
+        model = ir.load("models/m.onnx")
+        want = os.path.realpath("models")
+        found = {}
+
+        def walk_graph(gr):
+            for v in gr.initializers.values():
+                if isinstance(v.const_value, ir.ExternalTensor):
+                    found[v.const_value.name] = v.const_value
+            for n in gr:
+                for a in n.attributes.values():
+                    if a.is_ref():
+                        continue
+                    if a.type == ir.AttributeType.TENSOR and isinstance(a.value, ir.ExternalTensor):
+                        found[a.value.name] = a.value
+                    elif a.type == ir.AttributeType.TENSORS:
+                        for t in a.value:
+                            if isinstance(t, ir.ExternalTensor):
+                                found[t.name] = t
+                    elif a.type == ir.AttributeType.GRAPH:
+                        walk_graph(a.value)
+                    elif a.type == ir.AttributeType.GRAPHS:
+                        for s_ in a.value:
+                            walk_graph(s_)
+
+        walk_graph(model.graph)
+        for f in model.functions.values():
+            walk_graph(f.graph)
+        expected = {"t_top_init", "t_mid_init", "t_deep_init", "t_top_attr", "t_deep_attr", "t_fn_attr", "t_list_attr0", "t_list_attr1"}
+        if set(found) != expected:
+            chk.note_inconclusive(f"{name}: the harness found external tensors {sorted(found)}, expected {sorted(expected)}")
+            return
+        bad = {k: str(t.base_dir) for k, t in found.items() if not str(t.base_dir) or os.path.realpath(str(t.base_dir)) != want}
+        if bad:
+            chk.violation("C10:load:tensor-without-base-dir", f"{name}: after ir.load('models/m.onnx') these external tensors do not carry the model's directory as base directory "
+                          f"(an empty base directory switches the containment check off): {bad}", dict(kind="reach", bad=bad))
+        else:
+            chk.discharged += 1
+    finally:
+        os.chdir(cwd)
+        shutil.rmtree(root, ignore_errors=True)
+
+
 def validate_dirname():
     n = 0
     for p in ["a", "a/b", "/a", "/", "//a", "a//b", "a/b/", "/a/b/c.onnx", "./m.onnx", "../m.onnx", "m.onnx", "x/../m.onnx", "//", "a/", "///a///b"]:
@@ -688,8 +770,12 @@ def ob_load_base_dir(env, maxlen):
     class FakeSerde:
         @staticmethod
         def deserialize_model(proto):
+            class F:
+                graph = "fg"
+
             class M:
                 graph = "g"
+                functions = {("local", "f", ""): F()}
 
             return M()
 
@@ -699,7 +785,7 @@ def ob_load_base_dir(env, maxlen):
 
         @staticmethod
         def set_base_dir(graph, base_dir):
-            got["base_dir"] = base_dir
+            got.setdefault("dirs", []).append(base_dir)   # one call per graph the loader visits (main graph, function bodies)
 
     def body():
         fos = FakeOS(maxlen + 8)
@@ -709,20 +795,20 @@ def ob_load_base_dir(env, maxlen):
         if zsym.MODEL is not None:
             load = zsym.rebind(env.io.load, onnx=FakeOnnx, serde=FakeSerde, _external_data=FakeED)
         load(path)
-        bd = got.get("base_dir")
-        if bd is None:
+        dirs = got.get("dirs")
+        if not dirs:
             return False
         if zsym.MODEL is not None:      # concrete replay of the harness body
-            bd = os.fspath(bd)
+            dirs = [os.fspath(bd) for bd in dirs]
             want = posixpath.dirname(path) or "."
-            return bool(bd) and _same_dir_lexically(bd, want), dict(base_dir=bd)
+            return all(bool(bd) and _same_dir_lexically(bd, want) for bd in dirs), dict(base_dir=dirs)
         # the directory that contains the model file: dirname(path), or "." for a bare file name.  Any other string is
         # only acceptable if it denotes the same directory under EVERY symlink layout - decided by the concrete replay.
         d = zstr(sym_dirname(SStr(p)))
         want = z3.If(z3.Length(d) == 0, z3.StringVal("."), d)
         rel = z3.Not(z3.PrefixOf(z3.StringVal("/"), p))
         prefer = [[rel, z3.PrefixOf(z3.StringVal("a/../"), p)], [rel, z3.Contains(p, z3.StringVal("a/../"))], [rel, z3.Contains(p, z3.StringVal(".."))], [rel]]
-        return z3.And(z3.Length(zstr(bd)) > 0, zstr(bd) == want), dict(prefer=prefer)
+        return z3.And(*[z3.And(z3.Length(zstr(bd)) > 0, zstr(bd) == want) for bd in dirs]), dict(prefer=prefer)
 
     # relative spellings first (they are the ones a user types), then absolute ones
     r = explore(body, assume + [z3.Not(z3.PrefixOf(S("/"), p))], small=[z3.Length(p)])
@@ -882,6 +968,7 @@ def run(chk, tier):
     ob_entry_points(env)
     ob_repeated_reads(env)
     ob_load_base_dir(env, L)
+    ob_load_reaches_all_tensors(env)
     chk.extra["rule"] = "one case per obligation (containment / each entry point / load base dir); each decided for all strings within the length bound"
 
 
@@ -904,6 +991,8 @@ def _validate_join():
 
 
 def replay(rec):
+    if rec.get("kind") == "reach":
+        return True
     if rec.get("kind") == "load_dir":
         bad, detail = replay_load_dir(rec["path"])
     elif rec.get("kind") == "repeated":
